@@ -31,6 +31,8 @@ def shaped(g):
     out.append(("func-over", g.pair(kinds=["same", "conv", "sub"], func_over=1.0, n=(3, 5))))
     out.append(("multi-name-decl", g.pair(kinds=["same"], names=["ident"], n=(4, 6), multiname=1.0, embeds=0.5)))
     out.append(("multi-name-tagged", g.pair(kinds=["same"], names=["tag"], n=(4, 5), multiname=1.0, embeds=0.0)))
+    for i in range(3):
+        out.append(("manual-hook-bodies", g.pair(manual=1.0, manual_body=1.0, kinds=["same", "conv", "func"], names=["ident"], n=(4, 6))))
     out.append(("universe-types", g.pair(kinds=["same", "oneway", "none"], names=["ident"], n=(5, 6))))
     # finding regions
     out.append(("multi", g.pair(multi=1.0, n=(1, 2), names=["ident"])))
@@ -67,6 +69,8 @@ def gen_cases(ctx):
             o = {"nested_tag": 1.0, "embeds": 1.0}
         elif r < 0.23:
             o = {"skip_shadow": 1.0, "embeds": 1.0}
+        elif r < 0.30:
+            o = {"manual": 1.0}
         c = mapgen.make_case("r%d" % i, g.pair(**o), roundtrip=True)
         c["feat"] = "random"
         cases.append(c)
